@@ -2,6 +2,8 @@
 """mut_report.py <results.tsv> <triage.tsv> -> per-file table + totals (markdown on stdout)"""
 import sys, collections
 res = [l.rstrip('\n').split('\t') for l in open(sys.argv[1]) if l.strip()]
+if len(sys.argv) > 3:      # optional: only rows from this 0-based index on (a later pass)
+    res = res[int(sys.argv[3]):]
 tri = {}
 for l in open(sys.argv[2]):
     if l.strip():
